@@ -89,7 +89,7 @@ class HistGen:
     new_cls, scale, cls, dim, kind)."""
 
     def __init__(self, rng, with_invalid=True, max_exp=3, simple_derived=0.0,
-                 refless_derived=0.0, split_items=0.0, alias=0.12):
+                 refless_derived=0.0, split_items=0.0, alias=0.12, odd_symbols=0.15):
         self.rng = rng
         self.w = World()
         self.w.long_names = rng.random() < .3
@@ -105,6 +105,9 @@ class HistGen:
         self.split_items = split_items
         # probability that a scaled unit duplicates the scale of an existing unit
         self.alias = alias
+        # probability that a scaled unit gets a symbol with characters that
+        # Unicode normalisation would change
+        self.odd_symbols = odd_symbols
 
     # -- valid declarations ---------------------------------------------
     def base_class(self, refless=False, quantum=None):
@@ -193,7 +196,7 @@ class HistGen:
             # the defining quantity itself gets quantised: stay on the grid
             k = Fraction(rng.choice([2, 3, 8, 1000, 1024])) * quantum / u["scale"]
         sym = w.fresh("u")
-        if rng.random() < .15:
+        if rng.random() < self.odd_symbols:
             # symbols whose characters have compatibility / canonical
             # equivalents (OHM SIGN, ANGSTROM SIGN, KELVIN SIGN, a decomposed
             # letter, a ligature): a symbol is an opaque string
